@@ -42,6 +42,8 @@ pub struct ArgS {
     pub r_unless_all: Vec<String>,
     pub groups: Vec<String>,
     pub vp: Option<VpS>,
+    /// `value_names` (read by help / usage only; not part of the parser-level encoding)
+    pub val_names: Vec<String>,
 }
 impl Default for VpS { fn default() -> Self { VpS::Default } }
 
@@ -139,6 +141,7 @@ impl ArgS {
         if !self.r_unless.is_empty() { x = x.required_unless_present_any(self.r_unless.clone()); }
         if !self.r_unless_all.is_empty() { x = x.required_unless_present_all(self.r_unless_all.clone()); }
         for g in &self.groups { x = x.group(g.clone()); }
+        if !self.val_names.is_empty() { x = x.value_names(self.val_names.clone()); }
         match &self.vp {
             None | Some(VpS::Default) => {}
             Some(VpS::Os) => x = x.value_parser(clap::value_parser!(OsString)),
